@@ -75,6 +75,13 @@ def plan(tier, seed):
     for n in range(3, nr + 1):
         for pi, _ in enumerate(E2.parent_vectors(n)):
             tasks.append(("ring-bond-symbols", ("ringsym", n, pi)))
+    n2 = 6 if thorough else 5
+    scopes.append({"name": "two-ring-bonds-with-orders", "n_max": n2, "ring_orders": ["", "=", "#"], "digit_orders": "all",
+                   "desc": "two ring bonds, each single / double / triple (symbol on the opening digit), every order of the digits at "
+                           "an atom: the decoder must write ring bonds back in the order the encoder reads them", "table": RELAXED})
+    for n in range(3, n2 + 1):
+        for pi, _ in enumerate(E2.parent_vectors(n)):
+            tasks.append(("two-ring-bonds-with-orders", ("tworings", n, pi)))
     scopes.append({"name": "atom-grid", "isotopes": ISO, "elements": ELEM, "chirality": CHIR, "H": HS, "charges": CHG,
                    "contexts": ["X", "CX", "X=C", "C(X)C", "C1XC1", "CC.X", "X.X"],
                    "tables": [RELAXED, "default", "octet_rule", TIGHT]})
@@ -83,7 +90,8 @@ def plan(tier, seed):
             tasks.append(("atom-grid", ("grid", i, e)))
     els = sorted(misc.ELEMENTS)
     scopes.append({"name": "every-element", "elements": len(els), "isotopes": ["", "13"], "chirality": CHIR,
-                   "H": ["", "H1", "H2"], "charges": ["", "+", "-", "+2"], "contexts": ["X", "CX", "C1XC1", "C(X)(F)Cl", "X=C"],
+                   "H": ["", "H1", "H2"], "charges": ["", "+", "-", "+2"], "atom_class": ["", ":1", ":12"],
+                   "contexts": ["X", "CX", "C1XC1", "C(X)(F)Cl", "X=C"],
                    "desc": "the symbol grammar of encoder and decoder are separate hand-written patterns: every element "
                            "of the periodic table in every bracket form", "table": RELAXED})
     for k in range(0, len(els), 8):
@@ -201,6 +209,18 @@ def run(task):
                 for bts in itertools.product(["", "=", "/", "\\"], repeat=n - 1):
                     smi = E2.write(n, par, rings, at, [""] + list(bts), ring_tok={rings[0]: rs})
                     last = (smi, check(smi, RELAXED, r))
+    elif kind == "tworings":
+        _, n, pi = arg
+        par = list(E2.parent_vectors(n))[pi]
+        at, bt = ["C"] * n, [""] * n
+        for rings in E2.ring_sets(n, par, 2, 2):
+            r.states += 1
+            for dp in E2.digit_orders(rings):
+                for o1, o2 in itertools.product(["", "=", "#"], repeat=2):
+                    if o1 == o2 == "":
+                        continue
+                    smi = E2.write(n, par, rings, at, bt, ring_tok={rings[0]: (o1, ""), rings[1]: (o2, "")}, digit_perm=dp)
+                    last = (smi, check(smi, RELAXED, r))
     elif kind == "ba":
         _, n, pi, first = arg
         par = list(E2.parent_vectors(n))[pi]
@@ -265,11 +285,23 @@ def run(task):
     elif kind == "elements":
         for el in arg[1]:
             for iso, chir, h, chg in itertools.product(["", "13"], CHIR, ["", "H1", "H2"], ["", "+", "-", "+2"]):
-                sp = "[%s%s%s%s%s]" % (iso, el, chir, h, chg)
-                r.states += 1
-                for ctx in ("%s", "C%s", "C1%sC1", "C(%s)(F)Cl", "%s=C"):
-                    smi = ctx % sp
-                    last = (smi, check(smi, RELAXED, r))
+                syms = set()
+                for cls in ("", ":1", ":12"):        # the atom class (":n") is read and dropped: same symbol with and without it
+                    sp = "[%s%s%s%s%s%s]" % (iso, el, chir, h, chg, cls)
+                    r.states += 1
+                    for ctx in ("%s", "C%s", "C1%sC1", "C(%s)(F)Cl", "%s=C"):
+                        smi = ctx % sp
+                        x = check(smi, RELAXED, r)
+                        last = (smi, x)
+                        if ctx == "C%s" and x is not None:
+                            syms.add(misc.tokenize(x)[1])
+                r.evaluations += 1
+                if len(syms) > 1:
+                    r.violation("equivalent-spellings-differ", {"spellings": {"[%s%s%s%s%s%s]" % (iso, el, chir, h, chg, c): None for c in ("", ":1", ":12")},
+                                                                "table": RELAXED},
+                                "the atom class changes the symbol: %r" % sorted(syms))
+                else:
+                    r.validated += 1
     else:
         _, ns = arg
         for n in ns:
